@@ -78,6 +78,8 @@ pub enum BOp {
     ATell { id: u32, gate: Option<usize> },
     AAsk { id: u32, gate: Option<usize> },
     OpenGate(usize),
+    /// the coordinator lets real time pass
+    Wait(u64),
     Stop,
     Kill,
 }
@@ -142,6 +144,8 @@ pub struct BRun {
 }
 
 const SETTLE_MS: u64 = 40;
+/// how late a bounded call may return (thread start-up, private runtime, scheduling noise)
+const LATE_MS: u64 = 400;
 
 fn err_name(e: &rsactor::Error) -> String {
     match e {
@@ -307,6 +311,13 @@ pub fn run_order(scn: &BScenario, order: &[usize]) -> BRun {
             }
         }
         match (&op, c.ctx) {
+            (BOp::Wait(ms), _) => {
+                std::thread::sleep(Duration::from_millis(*ms));
+                let o = ops.last_mut().unwrap();
+                o.end_ms = Some(t0.elapsed().as_millis() as u64);
+                o.res = Some(BRes::Ok);
+                o.ended_by_step = Some(step);
+            }
             (BOp::OpenGate(g), _) => {
                 gates[*g].add_permits(1);
                 let o = ops.last_mut().unwrap();
@@ -475,7 +486,7 @@ pub fn check_run(scn: &BScenario, run: &BRun) -> Vec<(String, String)> {
                             if dur + 2 < t {
                                 v("C17 never early", format!("op {:?} timed out after {dur} ms", o.op));
                             }
-                            if dur > t.saturating_add(2000) {
+                            if dur > t.saturating_add(LATE_MS) {
                                 v("C17 returns by its deadline", format!("op {:?} returned Timeout only after {dur} ms", o.op));
                             }
                         }
@@ -497,8 +508,28 @@ pub fn check_run(scn: &BScenario, run: &BRun) -> Vec<(String, String)> {
         }
         // a bounded call is back by its deadline (+ tolerance), whatever the outcome
         if let (Some(t), Some(e)) = (timeout_of(&o.op), o.end_ms) {
-            if e - o.start_ms > t.saturating_add(2000) {
+            if e - o.start_ms > t.saturating_add(LATE_MS) {
                 v("C17 returns by its deadline", format!("op {:?} returned after {} ms", o.op, e - o.start_ms));
+            }
+        }
+    }
+    // a send fails with Send only when the actor is gone; a full mailbox makes it wait instead
+    let first_end_step = run.ops.iter().filter(|o| matches!(o.op, BOp::Stop | BOp::Kill)).map(|o| o.started_at_step).min();
+    for o in &run.ops {
+        if op_id(&o.op).is_none() {
+            continue;
+        }
+        if let Some(BRes::Err(e)) = &o.res {
+            if e == "Send" || e == "Receive" {
+                let actor_was_ending = match (first_end_step, o.ended_by_step) {
+                    (Some(s), Some(e)) => e >= s,
+                    (Some(_), None) => true,
+                    (None, Some(e)) => e > run.order.len(), // only the final clean-up stop can explain it
+                    (None, None) => true,
+                };
+                if !actor_was_ending {
+                    v("C17 a send waits rather than fails", format!("op {:?} returned Err({e}) while the actor was alive and nobody had stopped or killed it", o.op));
+                }
             }
         }
     }
@@ -654,6 +685,40 @@ pub fn scenarios(thorough: bool) -> Vec<BScenario> {
             BCaller { erased: true, ctx: Ctx::Thread, ops: vec![t(3, None, Some(50))] },
             BCaller { erased: true, ctx: Ctx::SpawnBlocking, ops: vec![a(4, None, Some(50))] },
             BCaller { erased: false, ctx: Ctx::Async, ops: vec![BOp::OpenGate(0)] },
+        ],
+    });
+    // S9: the no-timeout forms from spawn_blocking threads (which carry a runtime context) into a full mailbox
+    v.push(BScenario {
+        name: "b9-spawn-blocking-full".into(),
+        cap: 1,
+        gates: 1,
+        callers: vec![
+            BCaller { erased: false, ctx: Ctx::Thread, ops: vec![t(1, Some(0), None), t(2, None, None)] },
+            BCaller { erased: false, ctx: Ctx::SpawnBlocking, ops: vec![t(3, None, None)] },
+            BCaller { erased: false, ctx: Ctx::SpawnBlocking, ops: vec![a(4, None, None)] },
+            BCaller { erased: false, ctx: Ctx::Async, ops: vec![BOp::OpenGate(0)] },
+        ],
+    });
+    // S10: the gate stays closed far beyond every deadline: bounded calls (direct and type-erased) must come back on time
+    v.push(BScenario {
+        name: "b10a-deadline-held-tell".into(),
+        cap: 1,
+        gates: 1,
+        callers: vec![
+            BCaller { erased: false, ctx: Ctx::Thread, ops: vec![t(1, Some(0), None), t(2, None, None)] },
+            BCaller { erased: true, ctx: Ctx::Thread, ops: vec![t(3, None, Some(50))] },
+            BCaller { erased: false, ctx: Ctx::Async, ops: vec![BOp::Wait(500), BOp::OpenGate(0)] },
+        ],
+    });
+    v.push(BScenario {
+        name: "b10b-deadline-held-ask".into(),
+        cap: 2,
+        gates: 1,
+        callers: vec![
+            BCaller { erased: false, ctx: Ctx::Thread, ops: vec![t(1, Some(0), None)] },
+            BCaller { erased: true, ctx: Ctx::SpawnBlocking, ops: vec![a(4, None, Some(50))] },
+            BCaller { erased: false, ctx: Ctx::Thread, ops: vec![a(5, None, Some(50))] },
+            BCaller { erased: false, ctx: Ctx::Async, ops: vec![BOp::Wait(500), BOp::OpenGate(0)] },
         ],
     });
     // S6: unusual timeout values
